@@ -90,9 +90,20 @@ func watchdog() {
 
 // decodeReal runs serix Decode of b into a fresh value of the entry's type under recover, measuring
 // runtime.MemStats.TotalAlloc around the call.
+// spareCap returns a private copy of b that is the front part of a larger buffer (a receive buffer cut to what was read):
+// len = len(b), 24 more bytes of capacity holding plausible stale content. A decoder must never look behind len.
+func spareCap(b []byte) []byte {
+	buf := make([]byte, len(b)+24)
+	copy(buf, b)
+	for i := len(b); i < len(buf); i++ {
+		buf[i] = byte(0x41 + (i-len(b))%3) // 'A','B','C': also valid UTF-8, small numbers, non-zero
+	}
+	return buf[:len(b)]
+}
+
 func decodeReal(e *entry, s *Schema, b []byte, mode int) (o decObs) {
 	target := reflect.New(e.typ)
-	in := append([]byte(nil), b...)
+	in := spareCap(b)
 	var m0, m1 runtime.MemStats
 	o.val = target.Elem()
 	func() {
